@@ -1175,3 +1175,87 @@ Proof.
     unfold wake_step. destruct (b_crashed (snd sb)); [reflexivity|]. apply wake_client_wake. }
   rewrite G. reflexivity.
 Qed.
+
+(** ================= the runner's functions are sequences of steps ================= *)
+Lemma h_bpop_crashed left now s b c dbi parts oms rep s' b' :
+  h_bpop left now s b c dbi parts oms = (rep, s', b') -> b_crashed b' = b_crashed b.
+Proof.
+  intros H. unfold h_bpop in H.
+  destruct (len parts <? 3); [injection H as _ _ <-; reflexivity|].
+  destruct (timeout_of (last parts FNull) oms); [|injection H as _ _ <-; reflexivity].
+  destruct (all_bulks (removelast (tl parts))); [|injection H as _ _ <-; reflexivity].
+  destruct (fast_path left (get_db s dbi) l) as [[r|] d']; [injection H as _ _ <-; reflexivity|].
+  destruct (zlookup c (s_conns s)); injection H as _ _ <-; reflexivity.
+Qed.
+Lemma bnormal_crashed now s b c dbi parts o oms rep s' b' :
+  bnormal now s b c dbi parts o oms = (rep, s', b') -> b_crashed b' = b_crashed b.
+Proof.
+  intros H. unfold bnormal in H.
+  assert (NC : forall nmx, (let (r, s'0) := normal_command now s c dbi parts o in (r, s'0, notify_after_push b dbi nmx parts r)) = (rep, s', b') -> b_crashed b' = b_crashed b).
+  { intros nmx E. destruct (normal_command now s c dbi parts o) as [r s1]. injection E as _ _ <-. apply notify_after_push_fields. }
+  destruct parts as [|p rest].
+  { destruct (normal_command now s c dbi [] o). injection H as _ _ <-. reflexivity. }
+  destruct p; try (destruct (normal_command now s c dbi _ o); injection H as _ _ <-; reflexivity).
+  destruct (beq (upper b0) (bs "BLPOP")); [eapply h_bpop_crashed; exact H|].
+  destruct (beq (upper b0) (bs "BRPOP")); [eapply h_bpop_crashed; exact H|].
+  eapply NC. exact H.
+Qed.
+Lemma bexec_queue_crashed now dbi : forall q s b acc reps s' b',
+  bexec_queue now s b dbi q acc = (reps, s', b') -> b_crashed b' = b_crashed b.
+Proof.
+  induction q as [|parts q IH]; intros s b acc reps s' b' H; cbn [bexec_queue] in H.
+  - injection H as _ _ <-. reflexivity.
+  - destruct (bnormal now s b 0 dbi parts None None) as [[rep s1] b1] eqn:En.
+    rewrite (IH _ _ _ _ _ _ H). eapply bnormal_crashed; exact En.
+Qed.
+Lemma bprocess_frame_crashed now s b c f o oms rep s' b' :
+  bprocess_frame now s b c f o oms = (rep, s', b') -> b_crashed b' = b_crashed b.
+Proof.
+  intros H. unfold bprocess_frame in H.
+  assert (Pass : (let (r, s'0) := process_frame now s c f o in (r, s'0, b)) = (rep, s', b') -> b_crashed b' = b_crashed b).
+  { destruct (process_frame now s c f o). intros E. injection E as _ _ <-. reflexivity. }
+  destruct f as [| | | | |l| | | | | | |]; try (apply Pass; exact H).
+  destruct l as [|first rest]; [apply Pass; exact H|].
+  destruct first as [| | |nm| | | | | | | | |]; try (apply Pass; exact H).
+  destruct (zlookup c (s_conns s)) as [cn|]; [|apply Pass; exact H].
+  destruct (_ && negb (c_auth cn)); [apply Pass; exact H|].
+  destruct (beq (upper (trim nm)) (bs "MULTI")); [apply Pass; exact H|].
+  destruct (beq (upper (trim nm)) (bs "EXEC")).
+  { unfold bh_exec in H. cbv zeta in H. destruct (negb (c_intx cn)); [injection H as _ _ <-; reflexivity|].
+    destruct (existsb _ (c_watched cn)); [injection H as _ _ <-; reflexivity|].
+    revert H. destruct (bexec_queue _ _ _ _ _ _) as [[reps s2] b2] eqn:E. intros H. injection H as _ _ <-.
+    eapply bexec_queue_crashed; exact E. }
+  destruct (_ || _ || _ || _); [apply Pass; exact H|].
+  destruct (c_intx cn && _); [apply Pass; exact H|].
+  eapply bnormal_crashed; exact H.
+Qed.
+Lemma frame_step_crashed now s b c f oms : b_crashed (snd (frame_step now s b c f oms)) = b_crashed b.
+Proof.
+  unfold frame_step. destruct (bprocess_frame now s b c f None oms) as [[rep s'] b'] eqn:E. cbn [snd].
+  rewrite <- (bprocess_frame_crashed _ _ _ _ _ _ _ _ _ _ E). destruct rep; reflexivity.
+Qed.
+(** process_connection: the frames of one read are EFrame steps of that connection, in order *)
+Theorem serve_batch_is_run : forall fs now s b c,
+  b_crashed b = false -> forallb (fun fo => negb (is_quit (fst fo))) fs = true ->
+  serve_batch now s b c fs false = run (s, b) (map (fun fo => EFrame now c (fst fo) (snd fo)) fs).
+Proof.
+  induction fs as [|[f oms] fs IH]; intros now s b c Hc Hq; cbn [serve_batch map run fold_left]; [reflexivity|].
+  cbn [forallb fst] in Hq. apply andb_true_iff in Hq. destruct Hq as [Hq1 Hq2]. apply negb_true_iff in Hq1.
+  cbn [step fst snd]. rewrite Hc.
+  pose proof (frame_step_crashed now s b c f oms) as Hcr. unfold frame_step in *.
+  destruct (bprocess_frame now s b c f None oms) as [[rep s'] b'] eqn:E. cbn [snd] in Hcr.
+  rewrite Hq1. cbn [orb]. apply IH; [congruence|exact Hq2].
+Qed.
+(** one iteration of Server::run is: the wake-up step, the reads of the connections that are
+    not blocked, the timeout step *)
+Theorem iteration_phases now s b : b_crashed b = false ->
+  iteration now (s, b) =
+    (let sb1 := step (s, b) EWakeups in
+     if b_crashed (snd sb1) then sb1 else
+     let sb2 := process_conns now (fst sb1) (snd sb1) in
+     (fst sb2, process_timeouts now (snd sb2))).
+Proof.
+  intros Hc. unfold iteration. cbn [fst snd step]. rewrite Hc.
+  destruct (process_wakeups s b) as [s1 b1]. cbn [fst snd]. destruct (b_crashed b1); [reflexivity|].
+  destruct (process_conns now s1 b1) as [s2 b2]. reflexivity.
+Qed.
